@@ -14,6 +14,8 @@
 //   ORACLE lost-wakeup <tid> <n>     a writer sleeps although its request is admissible / refused
 //   END <ok|DEADLOCK|HANG|STEP-LIMIT|MISUSE|CRASH>
 #define _GNU_SOURCE
+#include <sys/prctl.h>
+#include <signal.h>
 #include "runtime/channel.c" // wrapper TU: gives access to the static next_write()
 #include "detsched.h"
 
@@ -205,7 +207,7 @@ int main(void)
         } else if (!strncmp(p, "run", 3)) {
             fflush(stdout);
             pid_t pid = fork();
-            if (pid == 0) run_child(p + 3);
+            if (pid == 0) { prctl(PR_SET_PDEATHSIG, SIGKILL); run_child(p + 3); }
             int st = 0;
             waitpid(pid, &st, 0);
             if (WIFSIGNALED(st)) { printf("END CRASH signal=%d\n", WTERMSIG(st)); }
